@@ -240,6 +240,12 @@ fn check_ac12(r: &RefAlt, tc: u8, code: u16) -> Option<(String, String)> {
         let kind = if code & 0x10 != 0 { "25ft" } else { "gillham" };
         return Some((format!("ac12:{kind}:value"), format!("TC{tc} ALT code {code:#05x}: reported {got:?}, standard says {std:?}")));
     }
+    // this field is an Option: an altitude of exactly 0 ft is representable (Some(0)) and is not the same thing as
+    // 'unavailable' (None) - unlike in the u16 of the 13-bit reader, where 0 has to stand for both
+    if std == Some(0) && got != Some(0) {
+        let kind = if code & 0x10 != 0 { "25ft" } else { "gillham" };
+        return Some((format!("ac12:{kind}:zero-altitude"), format!("TC{tc} ALT code {code:#05x} denotes 0 ft: reported {got:?}")));
+    }
     // both encodings agree on the same code
     let f13 = frame_with_ac(4, code13);
     if let Ok(m13) = decode(&f13) {
@@ -466,7 +472,7 @@ pub fn run(_ctx: &Ctx, rep: &Report) {
     rep.sample(json!({"kind":"id","code":0x1fff,"squawk":format!("{:04x}", ref_id13(0x1fff))}));
     rep.set_bound("complete: all 2^13 AC codes (DF4/0/16/20), all 2^12 ME altitude codes (TC 11/9/18/20), all 2^16 gray2alt arguments, all 2^13 identity codes (function and DF5/DF21 frames); quick = thorough");
     rep.assume("metric (M=1) AC codes are outside the property's two encodings: decoded for totality, value not judged");
-    rep.assume("altitudes <= 0 ft or > 65535 ft cannot be held by the u16 result: they may be reported unavailable (0/None) but not as another value");
+    rep.assume("altitudes < 0 ft or > 65535 ft cannot be held by the u16 result: they may be reported unavailable (0/None) but not as another value; 0 ft is 0 in the u16 of the 13-bit reader and must be Some(0) in the Option of the 12-bit reader");
 }
 
 pub fn replay(w: &Value, rep: &Report) {
